@@ -58,21 +58,7 @@ fn fan(x: u8) -> usize {
     core::cmp::min((x & 3) as usize, 2)
 }
 
-//@ tier: quick
-//@ inst: T = U = TC = UC = E = u8; xs = pointer-free source of <= 1 item; update yields 0..=2 states per item
-//@ funcs: fold::fold (foreach mode: every intermediate state is emitted)
-//@ bounds: input streams of 0..=1 items, update fan-out 0..=2, arbitrary init; the FIRST pull only (a second pull exhausts 12 GB: the explicit stack is a Vec of (iterator, Box<dyn Iterator>) pairs); unwind 4
-//@ assume: none
-//@ asserts: the first output of `foreach xs as $x (init; UPDATE)` is the first result of UPDATE on the first item, delivered after exactly ONE update result and ONE input item have been computed (the second update result is not evaluated before the first is delivered); no update result => no output
-//@ timeout: 900
-//@ mem_gb: 12
-#[kani::proof]
-#[kani::unwind(4)]
-fn c03_foreach_first_output_on_demand() {
-    let items: [u8; 2] = kani::any();
-    let len: usize = kani::any();
-    kani::assume(len <= 1);
-    let init: u8 = kani::any();
+fn foreach_first_output(items: [u8; 2], len: usize, init: u8) {
     let xs = In { items, len, pos: 0 };
     let f = move |x: u8, acc: u8| -> Results<'static, u8, u8> {
         Box::new(Upd { base: acc.wrapping_add(x), n: fan(x), j: 0 })
@@ -91,8 +77,42 @@ fn c03_foreach_first_output_on_demand() {
         assert!(o.is_none());
         assert!(GIVEN.load(Relaxed) == g0);
     }
+    core::mem::forget(it);
+}
+
+//@ tier: quick
+//@ inst: T = U = TC = UC = E = u8; xs = pointer-free source of <= 1 item; update yields 0..=2 states per item
+//@ funcs: fold::fold (foreach mode: every intermediate state is emitted)
+//@ bounds: input streams of 0..=1 items, update fan-out 0..=2, arbitrary init; the FIRST pull only (a second pull exhausts 12 GB: the explicit stack is a Vec of (iterator, Box<dyn Iterator>) pairs); unwind 4
+//@ assume: none
+//@ asserts: the first output of `foreach xs as $x (init; UPDATE)` is the first result of UPDATE on the first item, delivered after exactly ONE update result and ONE input item have been computed (the second update result is not evaluated before the first is delivered); no update result => no output
+//@ timeout: 900
+//@ mem_gb: 12
+//@ native_replay: c03_foreach_first_output_on_demand_native_enumeration
+#[kani::proof]
+#[kani::unwind(4)]
+fn c03_foreach_first_output_on_demand() {
+    let items: [u8; 2] = kani::any();
+    let len: usize = kani::any();
+    kani::assume(len <= 1);
+    let init: u8 = kani::any();
+    let n0 = if len > 0 { fan(items[0]) } else { 0 };
     kani::cover!(len == 0);
     kani::cover!(len == 1 && n0 == 2);
     kani::cover!(len == 1 && n0 == 0);
-    core::mem::forget(it);
+    foreach_first_output(items, len, init);
+}
+
+/// Native run of the same body over the harness's whole input space that matters (first item: all
+/// 256 values, length 0..=1, two initial states): used by the driver only when Kani's concrete-playback
+/// run of a reported failure exceeds its caps, to find a concrete input that reproduces it natively.
+#[test]
+fn c03_foreach_first_output_on_demand_native_enumeration() {
+    for len in 0..=1usize {
+        for x in 0..=255u8 {
+            for init in [0u8, 200] {
+                foreach_first_output([x, 0], len, init);
+            }
+        }
+    }
 }
